@@ -77,3 +77,38 @@ Proof.
   split; [apply wf_intersection; apply wf_new_req; reflexivity|].
   split; [apply canon_intersection|]. vm_compute. repeat split; reflexivity.
 Qed.
+
+(* ---- truncation of the instance-type options before launch (C13/Trunc.v) ---- *)
+From KV Require Import C13.Trunc.
+
+(* what Truncate keeps is the cheapest prefix of the options and, under the strict policy, still meets every
+   minValues floor; for every catalogue, every set of floors and every maxItems *)
+Theorem truncate_keeps_floor : forall strict mins maxn ordered t,
+  truncate strict mins maxn ordered = Some t ->
+  t = firstn maxn ordered /\ (strict = true -> satisfies mins t = true).
+Proof. exact truncate_keeps_floor_l. Qed.
+Print Assumptions truncate_keeps_floor.
+
+Theorem truncate_subset : forall strict mins maxn ordered t,
+  truncate strict mins maxn ordered = Some t -> incl t ordered /\ (List.length t <= maxn)%nat.
+Proof. exact truncate_subset_l. Qed.
+Print Assumptions truncate_subset.
+
+(* the strict policy refuses exactly when the cheapest maxItems options miss a floor; best effort never refuses *)
+Theorem truncate_errors_iff : forall mins maxn ordered,
+  truncate true mins maxn ordered = None <-> satisfies mins (firstn maxn ordered) = false.
+Proof. exact truncate_errors_iff_l. Qed.
+Print Assumptions truncate_errors_iff.
+
+Theorem truncate_best_effort : forall mins maxn ordered, truncate false mins maxn ordered = Some (firstn maxn ordered).
+Proof. exact truncate_best_effort_l. Qed.
+Print Assumptions truncate_best_effort.
+
+(* a re-check that is skipped when the last needed type is the (maxItems+1)-th (seeded change C13-4) keeps a list
+   that misses a floor *)
+Theorem truncate_offbyone_refuted :
+  let its := [("a", [("fam", ["x"])]); ("b", [("fam", ["x"])]); ("c", [("fam", ["y"])]); ("d", [("fam", ["z"])])]%string in
+  exists t, truncate_offbyone [("fam"%string, 3%nat)] 3%nat its = Some t /\ satisfies [("fam"%string, 3%nat)] t = false /\
+            truncate true [("fam"%string, 3%nat)] 3%nat its = None.
+Proof. exact truncate_offbyone_breaks_floor. Qed.
+Print Assumptions truncate_offbyone_refuted.
